@@ -10,6 +10,7 @@ use log4rs::encode::writer::ansi::AnsiWriter;
 use log4rs::encode::{Color, Style, Write as EncWrite};
 use proptest::prelude::*;
 use serde::{Deserialize, Serialize};
+use std::sync::Arc;
 use std::io::{Read, Write};
 use std::os::unix::io::{FromRawFd, RawFd};
 use std::path::Path;
@@ -97,17 +98,35 @@ fn open_pty() -> Result<(RawFd, RawFd), String> {
     Ok((master, slave))
 }
 
-fn drain(fd: RawFd) -> std::thread::JoinHandle<Vec<u8>> {
+/// Reads a pty master until the child is gone and the line has been silent for a while. The parent keeps a slave
+/// descriptor open meanwhile: on Linux, output still travelling through the line discipline is discarded when the
+/// last slave closes, which would look like a truncated stream.
+fn drain(fd: RawFd, child_gone: Arc<std::sync::atomic::AtomicBool>) -> std::thread::JoinHandle<Vec<u8>> {
     std::thread::spawn(move || {
         let mut f = unsafe { std::fs::File::from_raw_fd(fd) };
         let mut out = vec![];
         let mut buf = [0u8; 4096];
+        let mut silent_after_exit = 0;
         loop {
-            match f.read(&mut buf) {
-                Ok(0) => break,
-                Ok(n) => out.extend_from_slice(&buf[..n]),
-                Err(e) if e.kind() == std::io::ErrorKind::Interrupted => continue,
-                Err(_) => break, // EIO on a pty master once every slave is closed
+            let mut p = libc::pollfd { fd, events: libc::POLLIN, revents: 0 };
+            let r = unsafe { libc::poll(&mut p, 1, 20) };
+            if r > 0 && (p.revents & libc::POLLIN) != 0 {
+                match f.read(&mut buf) {
+                    Ok(0) => break,
+                    Ok(n) => {
+                        out.extend_from_slice(&buf[..n]);
+                        silent_after_exit = 0;
+                    }
+                    Err(e) if e.kind() == std::io::ErrorKind::Interrupted => continue,
+                    Err(_) => break,
+                }
+            } else if r > 0 {
+                break; // POLLHUP/POLLERR without data
+            } else if child_gone.load(std::sync::atomic::Ordering::SeqCst) {
+                silent_after_exit += 1;
+                if silent_after_exit >= 5 {
+                    break;
+                }
             }
         }
         out
@@ -140,9 +159,12 @@ fn run_cell(tmp: &Path, cell: &Cell) -> Result<ChildRun, String> {
         cmd.env("CLICOLOR_FORCE", v);
     }
     let mut masters: [Option<RawFd>; 2] = [None, None];
+    let mut kept_slaves: Vec<RawFd> = vec![];
+    let child_gone = Arc::new(std::sync::atomic::AtomicBool::new(false));
     if cell.stdout_tty {
         let (m, s) = open_pty()?;
         masters[0] = Some(m);
+        kept_slaves.push(unsafe { libc::fcntl(s, libc::F_DUPFD_CLOEXEC, 3) });
         cmd.stdout(unsafe { Stdio::from_raw_fd(s) });
     } else {
         cmd.stdout(Stdio::piped());
@@ -150,14 +172,15 @@ fn run_cell(tmp: &Path, cell: &Cell) -> Result<ChildRun, String> {
     if cell.stderr_tty {
         let (m, s) = open_pty()?;
         masters[1] = Some(m);
+        kept_slaves.push(unsafe { libc::fcntl(s, libc::F_DUPFD_CLOEXEC, 3) });
         cmd.stderr(unsafe { Stdio::from_raw_fd(s) });
     } else {
         cmd.stderr(Stdio::piped());
     }
     let mut child = cmd.spawn().map_err(|e| e.to_string())?;
-    drop(cmd); // closes the parent's copies of the slave ends
+    drop(cmd); // closes the descriptors handed to the child; `kept_slaves` stay open until the masters are drained
     let h_out = match masters[0] {
-        Some(m) => drain(m),
+        Some(m) => drain(m, child_gone.clone()),
         None => {
             let mut p = child.stdout.take().unwrap();
             std::thread::spawn(move || {
@@ -168,7 +191,7 @@ fn run_cell(tmp: &Path, cell: &Cell) -> Result<ChildRun, String> {
         }
     };
     let h_err = match masters[1] {
-        Some(m) => drain(m),
+        Some(m) => drain(m, child_gone.clone()),
         None => {
             let mut p = child.stderr.take().unwrap();
             std::thread::spawn(move || {
@@ -192,8 +215,14 @@ fn run_cell(tmp: &Path, cell: &Cell) -> Result<ChildRun, String> {
             }
         }
     };
+    child_gone.store(true, std::sync::atomic::Ordering::SeqCst);
     let stdout = h_out.join().unwrap_or_default();
     let stderr = h_err.join().unwrap_or_default();
+    for s in kept_slaves {
+        if s >= 0 {
+            unsafe { libc::close(s) };
+        }
+    }
     let _ = std::fs::remove_dir_all(&dir);
     Ok(ChildRun { stdout, stderr, code: status.code() })
 }
@@ -557,7 +586,7 @@ pub fn check_shared(tmp: &Path, c: &Shared, obs: &mut Obs) -> CaseResult {
         eprintln!("[lv] pipe() failed: infrastructure trouble");
         std::process::exit(2);
     }
-    let reader = drain(fds[0]);
+    let reader = drain(fds[0], Arc::new(std::sync::atomic::AtomicBool::new(false)));
     let mut kids = vec![];
     for _ in 0..c.children {
         let w = unsafe { libc::dup(fds[1]) };
